@@ -4,6 +4,7 @@ import (
 	"github.com/jsightapi/jsight-schema-core/bytes"
 	"github.com/jsightapi/jsight-schema-core/fs"
 	"github.com/jsightapi/jsight-schema-core/kit"
+	"github.com/jsightapi/jsight-schema-core/panics"
 	"github.com/jsightapi/jsight-schema-core/rules/enum"
 
 	"github.com/jsightapi/jsight-api-core/jerr"
@@ -105,10 +106,21 @@ func (s *Scanner) readEnumWithJsc() (uint, *jerr.JApiError) {
 	fc := s.file.Content()
 	file := fs.NewFile("", fc.Sub(s.curIndex, fc.LenIndex()))
 
-	l, err := enum.FromFile(file).Len()
+	l, err := enumLen(file)
 	if err != nil {
 		err := kit.ConvertError(file, err)
 		return 0, s.japiError(err.Message(), s.curIndex+bytes.Index(err.Index()))
 	}
 	return l, nil
+}
+
+// enumLen computes the length of the enum in the beginning of the file.
+// Unlike the jschema.JSchema.Len, the enum.Enum.Len doesn't handle panics of the
+// enum scanner (i.e. on the unterminated annotation at the end of the file), so
+// we have to do it here.
+func enumLen(file *fs.File) (l uint, err error) {
+	defer func() {
+		err = panics.Handle(recover(), err)
+	}()
+	return enum.FromFile(file).Len()
 }
